@@ -15,6 +15,7 @@ import DeapModel.Lemmas.C09PMX
 import DeapModel.Lemmas.C09OX
 import DeapModel.Lemmas.C09BufferOps
 import DeapModel.Lemmas.C09Hist
+import DeapModel.Lemmas.C09Gen
 
 set_option linter.unusedSectionVars false
 set_option linter.unusedSimpArgs false
